@@ -112,7 +112,11 @@ impl SchedulerContext {
         // and checks status plus this timestamp under transaction locks, so a validation predating
         // this rewind cannot enter the stable prefix afterward.
         let timestamp = self.logical_clock.fetch_add(1, Ordering::AcqRel);
+        #[cfg(grevm_verif)]
+        crate::verif::sched_point("win.rewind.after_ts");
         self.lower_timestamps[index].fetch_max(timestamp, Ordering::AcqRel);
+        #[cfg(grevm_verif)]
+        crate::verif::sched_point("win.rewind.before_cursor");
         let previous = self.validation.rewind(index);
         #[cfg(grevm_verif)]
         crate::verif::event(crate::verif::Event::Rewind { index, ts: timestamp, previous });
